@@ -1,3 +1,106 @@
-From Iodine Require Import DnsWf.
-Theorem C10_placeholder : True. Proof. exact I. Qed.
-Print Assumptions C10_placeholder.
+(* Properties_C10.v -- C10: every DNS message emitted is a well-formed RFC 1035 message and
+   answers echo their question.  Specification = the independent strict parser DnsWf.wf_msg;
+   emitters = DnsMsg.dns_encode_query / write_dns / aux_answer (validated against the C by
+   checks/c10.py).  Only final theorems here; proofs are in DnsWfProofs.v / DnsEmitProofs.v /
+   DnsAnswerProofs.v. *)
+From Coq Require Import List NArith Arith Bool Lia.
+From Iodine Require Import Base Codec Hostname DnsName DnsMsg DnsWf DnsWfProofs DnsEmitProofs.
+Import ListNotations.
+Local Open Scope N_scope.
+
+(* the quantifier:  label_ok l  :=  1 <= length l <= 63, no '.' (46), no NUL;
+                    wf_labels ls :=  Forall label_ok ls /\ wire_len ls <= 255;
+                    name_of ls   :=  the labels joined with dots (iodine's C-string form) *)
+
+(* ---- C10_query_wf: every query the client's encoder builds for a legal name -------------- *)
+
+Theorem C10_query_wf : forall ls id ty (edns0 : bool), wf_labels ls -> id < 65536 -> ty < 65536 ->
+  exists m msg,
+    dns_encode_query 4096 edns0 id ty (name_of ls) = Some m /\ wf_msg m = Some msg /\
+    m_id msg = id /\ m_qr msg = false /\ m_qname msg = ls /\ m_qtype msg = ty /\ m_qclass msg = 1 /\
+    m_answers msg = [] /\ m_authority msg = [] /\
+    (if edns0
+     then exists r, m_additional msg = [r] /\ rr_type r = 41 /\ rr_name r = [] /\ rr_rdata r = []
+     else m_additional msg = []).
+Proof.
+  intros ls id ty edns0 [Hok Hw] Hid Hty.
+  eexists. eexists. split; [apply (query_form 4096 edns0 id ty ls Hok Hw); lia|].
+  split; [apply (query_wf edns0 id ty ls Hok Hw Hid Hty)|].
+  cbn [m_id m_qr m_qname m_qtype m_qclass m_answers m_authority m_additional].
+  repeat split; try reflexivity.
+  destruct edns0; [|reflexivity]. exists opt_rr. repeat split; reflexivity.
+Qed.
+Print Assumptions C10_query_wf.
+
+(* non-vacuity: a two-label name with a high byte and a 63-byte label *)
+Example C10_query_wf_example :
+  wf_labels [[112; 233; 65]; repeat 120 63; [99; 111; 109]] /\
+  exists m, dns_encode_query 4096 true 8727 10 (name_of [[112; 233; 65]; repeat 120 63; [99; 111; 109]]) = Some m /\
+            wf_msgb m = true.
+Proof.
+  split.
+  - split; [|vm_compute; lia].
+    repeat constructor; cbn; try lia; intros H; repeat (destruct H as [H|H]; [discriminate|]); exact H.
+  - eexists. split; vm_compute; reflexivity.
+Qed.
+
+(* ---- C10_spec_rejects: the specification parser is not vacuous ---------------------------- *)
+
+(* helper: header (id 7, QR|AA, 1 question, an answers), question "ab.t.example.com" type ty *)
+Definition ex_q (ty an : N) : list N :=
+  [0; 7; 132; 0; 0; 1; 0; an; 0; 0; 0; 0] ++
+  [2; 97; 98; 1; 116; 7; 101; 120; 97; 109; 112; 108; 101; 3; 99; 111; 109; 0] ++ [0; ty; 0; 1].
+Definition ex_rr (o1 o2 ty rdlen : N) (rdata : list N) : list N := [o1; o2; 0; ty; 0; 1; 0; 0; 0; 0; 0; rdlen] ++ rdata.
+
+(* accepted: an RFC 1035 4.1.4 style message -- CNAME whose RDATA is a label followed by a
+   pointer to the label "t" of the question name (offset 15) *)
+Example C10_spec_accepts_pointer :
+  option_map (fun m => (m_qname m, map rr_name (m_answers m), map rr_rdname (m_answers m)))
+    (wf_msg (ex_q 5 1 ++ ex_rr 192 12 5 6 [3; 119; 119; 119; 192; 15])) =
+  Some ([[97; 98]; [116]; [101; 120; 97; 109; 112; 108; 101]; [99; 111; 109]],
+        [[[97; 98]; [116]; [101; 120; 97; 109; 112; 108; 101]; [99; 111; 109]]],
+        [Some [[119; 119; 119]; [116]; [101; 120; 97; 109; 112; 108; 101]; [99; 111; 109]]]).
+Proof. vm_compute. reflexivity. Qed.
+
+Example C10_spec_accepts_null : wf_msgb (ex_q 10 1 ++ ex_rr 192 12 10 3 [1; 2; 3]) = true.
+Proof. vm_compute. reflexivity. Qed.
+Example C10_spec_rejects_count : wf_msg (ex_q 10 2 ++ ex_rr 192 12 10 3 [1; 2; 3]) = None.
+Proof. vm_compute. reflexivity. Qed.
+Example C10_spec_rejects_trailing : wf_msg (ex_q 10 1 ++ ex_rr 192 12 10 3 [1; 2; 3] ++ [0]) = None.
+Proof. vm_compute. reflexivity. Qed.
+Example C10_spec_rejects_forward_pointer : wf_msg (ex_q 10 1 ++ ex_rr 192 48 10 3 [1; 2; 3]) = None.
+Proof. vm_compute. reflexivity. Qed.
+Example C10_spec_rejects_mid_label_pointer : wf_msg (ex_q 10 1 ++ ex_rr 192 13 10 3 [1; 2; 3]) = None.
+Proof. vm_compute. reflexivity. Qed.
+Example C10_spec_rejects_ns_pointer_off_by_one :
+  wf_msg (ex_q 2 1 ++ ex_rr 192 12 2 5 [2; 110; 115; 192; 16]) = None /\
+  wf_msgb (ex_q 2 1 ++ ex_rr 192 12 2 5 [2; 110; 115; 192; 15]) = true.
+Proof. split; vm_compute; reflexivity. Qed.
+Example C10_spec_rejects_label_64 :
+  wf_msg ([0; 7; 1; 0; 0; 1; 0; 0; 0; 0; 0; 0] ++ 64 :: repeat 97 64 ++ [0; 0; 10; 0; 1]) = None.
+Proof. vm_compute. reflexivity. Qed.
+Example C10_spec_rejects_name_256 :
+  wf_msg ([0; 7; 1; 0; 0; 1; 0; 0; 0; 0; 0; 0] ++ 63 :: repeat 97 63 ++ 63 :: repeat 98 63 ++ 63 :: repeat 99 63 ++
+          62 :: repeat 100 62 ++ [0; 0; 10; 0; 1]) = None /\
+  wf_msgb ([0; 7; 1; 0; 0; 1; 0; 0; 0; 0; 0; 0] ++ 63 :: repeat 97 63 ++ 63 :: repeat 98 63 ++ 63 :: repeat 99 63 ++
+          61 :: repeat 100 61 ++ [0; 0; 10; 0; 1]) = true.
+Proof. split; vm_compute; reflexivity. Qed.
+Example C10_spec_rejects_rdlength :
+  wf_msg (ex_q 16 1 ++ ex_rr 192 12 16 7 [3; 97; 98; 99; 1; 122]) = None /\       (* TXT, RDLENGTH + 1 *)
+  wf_msg (ex_q 16 1 ++ ex_rr 192 12 16 5 [3; 97; 98; 99; 1; 122]) = None /\       (* TXT, RDLENGTH - 1 *)
+  wf_msgb (ex_q 16 1 ++ ex_rr 192 12 16 6 [3; 97; 98; 99; 1; 122]) = true /\
+  wf_msg (ex_q 5 1 ++ ex_rr 192 12 5 8 [2; 104; 49; 2; 120; 121; 0]) = None /\   (* CNAME, RDLENGTH + 1 *)
+  wf_msg (ex_q 5 1 ++ ex_rr 192 12 5 6 [2; 104; 49; 2; 120; 121; 0]) = None /\
+  wf_msgb (ex_q 5 1 ++ ex_rr 192 12 5 7 [2; 104; 49; 2; 120; 121; 0]) = true /\
+  wf_msg (ex_q 15 1 ++ ex_rr 192 12 15 10 [0; 10; 2; 104; 49; 2; 120; 121; 0]) = None /\   (* MX *)
+  wf_msgb (ex_q 15 1 ++ ex_rr 192 12 15 9 [0; 10; 2; 104; 49; 2; 120; 121; 0]) = true /\
+  wf_msg (ex_q 33 1 ++ ex_rr 192 12 33 12 [0; 10; 0; 10; 19; 196; 2; 104; 49; 2; 120; 121; 0]) = None /\   (* SRV *)
+  wf_msgb (ex_q 33 1 ++ ex_rr 192 12 33 13 [0; 10; 0; 10; 19; 196; 2; 104; 49; 2; 120; 121; 0]) = true /\
+  wf_msg (ex_q 1 1 ++ ex_rr 192 12 1 5 [127; 0; 0; 1; 0]) = None /\               (* A with 5 bytes *)
+  wf_msg (ex_q 10 1 ++ ex_rr 192 12 10 4 [1; 2; 3]) = None /\                     (* NULL, RDLENGTH + 1 *)
+  wf_msg (ex_q 10 1 ++ ex_rr 192 12 10 2 [1; 2; 3]) = None.                       (* NULL, RDLENGTH - 1 *)
+Proof. repeat split; vm_compute; reflexivity. Qed.
+Example C10_spec_rejects_txt_not_tiled :
+  wf_msg (ex_q 16 1 ++ ex_rr 192 12 16 6 [3; 97; 98; 99; 5; 122]) = None /\
+  wf_msg (ex_q 16 1 ++ ex_rr 192 12 16 0 []) = None.
+Proof. split; vm_compute; reflexivity. Qed.
